@@ -1,5 +1,6 @@
 import ctypes
 import math
+import os
 import shutil
 import subprocess
 import tempfile
@@ -933,7 +934,11 @@ void apply_logic_net(bool const *inp, {BITS_TO_DTYPE[32]} *out, size_t len) {{
                 print(f"Compiling finished in {time.time() - t_s:.3f} seconds.")
 
             if save_lib_path is not None:
-                shutil.copy(lib_file.name, save_lib_path)
+                # Write next to the target and rename it into place: overwriting in place would
+                # modify the pages of a library that is already loaded from this path.
+                tmp_save_path = f"{save_lib_path}.tmp{os.getpid()}"
+                shutil.copy(lib_file.name, tmp_save_path)
+                os.replace(tmp_save_path, save_lib_path)
                 if verbose:
                     print(f"lib_file copied from {lib_file.name} to {save_lib_path}")
 
@@ -1019,6 +1024,10 @@ void apply_logic_net(bool const *inp, {BITS_TO_DTYPE[32]} *out, size_t len) {{
         self.input_shape = input_shape
         self.num_classes = num_classes
 
-        lib = ctypes.cdll.LoadLibrary(save_lib_path)
+        # Load a private copy: dlopen caches by path name and would otherwise hand back a
+        # previously loaded library after the file at this path has been replaced.
+        with tempfile.NamedTemporaryFile(suffix=".so") as private_copy:
+            shutil.copy(save_lib_path, private_copy.name)
+            lib = ctypes.cdll.LoadLibrary(private_copy.name)
         self._setup_library_function(lib)
         return self
